@@ -221,7 +221,13 @@ func VH_C04_EventColumns() {
 	endTxt := "1:02:03.45"
 	endNs := int64(3723450) * 1000000
 	marked := nondetBool()
-	margin := nondetInt64(0, 999)
+	// margins: symbolic digits, written bare or in the traditional zero-padded four-digit spelling
+	md1, md2, md3 := d(), d(), d()
+	margin := int64(md1-'0')*100 + int64(md2-'0')*10 + int64(md3-'0')
+	marginTxt := "0" + string([]byte{md1, md2, md3})
+	if (k/2)%2 == 0 {
+		marginTxt = strconv.FormatInt(margin, 10)
+	}
 	layer := nondetInt64(0, 9)
 	texts := []struct {
 		src   string
@@ -254,7 +260,7 @@ func VH_C04_EventColumns() {
 		case "Name":
 			row = append(row, "Bob")
 		case "MarginL", "MarginR", "MarginV":
-			row = append(row, strconv.FormatInt(margin, 10))
+			row = append(row, marginTxt)
 		case "Effect":
 			row = append(row, "Karaoke")
 		case "Layer":
